@@ -621,6 +621,13 @@ func (g *Gen) pickConcurrent(k int) []int {
 			return chosen
 		}
 	}
+	// one block in six has two or three members write the same item at once: the same action of one entity with
+	// timestamps around each other, the same component added, updated and deleted
+	if g.rnd.Intn(6) == 0 {
+		if chosen := g.sameItemWriters(k, bySession); chosen != nil {
+			return chosen
+		}
+	}
 	if target >= 0 && g.rnd.Intn(3) > 0 {
 		members := bySession[target]
 		var chosen []int
@@ -786,6 +793,56 @@ func (g *Gen) attachAgainstRemoval(k int, bySession map[int][]int, outsiders []i
 				g.w.Recv(c, plan[c])
 			}
 		}
+		if framed {
+			g.w.Tick(sid)
+		}
+		return chosen
+	}
+	return nil
+}
+
+// sameItemWriters builds a block in which several members of one session write one item.
+func (g *Gen) sameItemWriters(k int, bySession map[int][]int) []int {
+	kn := g.w.know
+	for _, sid := range sortedKeys(kn.sids) {
+		members := bySession[sid]
+		if len(members) < 2 || kn.maxEid[sid] == 0 {
+			continue
+		}
+		eid := uint32(1 + g.rnd.Intn(kn.maxEid[sid]))
+		if kn.maxTid[sid] == 0 {
+			g.do(members[0], &wire.Req{Kind: "typeAdd", Str: g.name()})
+		}
+		tid := uint32(1)
+		if kn.maxTid[sid] > 1 {
+			tid = uint32(1 + g.rnd.Intn(kn.maxTid[sid]))
+		}
+		actions := g.rnd.Intn(2) == 0
+		name := g.name()
+		secs := secsPool[g.rnd.Intn(len(secsPool))]
+		var chosen []int
+		framed := false
+		for _, c := range members {
+			if len(chosen) >= k {
+				break
+			}
+			var r *wire.Req
+			if actions {
+				r = g.RequestOf(c, "action")
+				r.Act = &wire.Action{Eid: eid, Name: name, Data: g.smallBytes(),
+					Ts: &wire.Ts{Secs: secs + int64(g.rnd.Intn(2)), Nanos: nanosPool[g.rnd.Intn(len(nanosPool))]}}
+			} else {
+				kind := []string{"compAdd", "compAdd", "compUpdate", "compUpdate", "compDelete"}[g.rnd.Intn(5)]
+				r = g.RequestOf(c, kind)
+				r.N1, r.N2 = tid, eid
+				if kind == "compUpdate" {
+					framed = true
+				}
+			}
+			g.w.Recv(c, r)
+			chosen = append(chosen, c)
+		}
+		sortInts(chosen)
 		if framed {
 			g.w.Tick(sid)
 		}
